@@ -3,7 +3,7 @@
 (a) model tie: synthetic IR trees (real ir.* classes, real Temporary objects; c08_worker.py) through the REAL
     ConvertInstance.detect_uninitialized_temporaries / StatemachineContext._check_temporaries /
     cleanup_unused + cleanup_bool_cast, compared inside Coq with Models/Temps.v
-    (search_invalid | search_invalid_fixed selected by C08_MODEL=coded|fixed, check_states, cleanup);
+    (search_invalid, check_states, cleanup = the current tree; C08_MODEL=coded compares with the pre-fix model, development only);
     the SPEC (def_before_use over all paths) is evaluated on every accepted tree as well.
 (b) source programs over the construct x placement grid through the whole compiler: real verdict vs an
     independent definite-assignment judgement on the generator's description, and for every accepted design
@@ -19,8 +19,8 @@ import common
 import explore as X
 import vhdl_reader as R
 
-MODEL = os.environ.get("C08_MODEL", "coded")
-FX = "true" if MODEL == "fixed" else "false"
+MODEL = os.environ.get("C08_MODEL", "current")     # "coded" = the model of the tree before a252909 / 1da1fb5 (development only)
+FX = "false" if MODEL == "coded" else "true"
 
 PRE_A = ("From Coq Require Import NArith PArith List Bool.\nImport ListNotations.\n"
          "From Cohdl Require Import Models.Temps.\n")
@@ -230,6 +230,14 @@ def verd(r):
     return VERD.get(r, "Crash")
 
 
+def par(*fns):
+    """run independent Coq evaluations concurrently"""
+    from concurrent.futures import ThreadPoolExecutor
+    with ThreadPoolExecutor(len(fns)) as ex:
+        futs = [ex.submit(f) for f in fns]
+        return [f.result() for f in futs]
+
+
 def part_a(ck):
     rng = ck.rng
     quick = ck.tier == "quick"
@@ -237,7 +245,7 @@ def part_a(ck):
     cases = []
     for meta, mu, tree in grid_trees():
         cases.append((meta, mu, tree))
-    nrand = 300 if quick else 6000
+    nrand = 300 if quick else 4000
     for i in range(nrand):
         t = rand_tree(rng, depth=rng.choice([2, 3, 3]))
         if n_paths(t) > 400:
@@ -247,13 +255,14 @@ def part_a(ck):
     res = common.run_worker("c08_worker.py", {"cases": [{"op": "search", "mu": mu, "tree": t} for _, mu, t in cases]})["results"]
     terms = [f"({c_plist(mu)}, {c_block(t)}, {verd(r)})" for (_, mu, t), r in zip(cases, res)]
     ctype = "list positive * block * verdict"
-    bad_model = set(common.coq_bad_indices(
-        ck, "a_search", PRE_A, ctype, terms,
-        f"fun c => verdict_eqb (search_invalid_gen {FX} (fst (fst c)) (snd (fst c))) (snd c)"))
     # the SPEC on the real verdicts: an accepted (well-formed) tree has definition before use on every path
-    bad_spec = set(common.coq_bad_indices(
-        ck, "a_spec", PRE_A, ctype, terms,
-        "fun c => negb (verdict_eqb (snd c) Accept) || negb (wf_block (snd (fst c))) || def_before_use_b (fst (fst c)) (snd (fst c))"))
+    bad_model, bad_spec = [set(x) for x in par(
+        lambda: common.coq_bad_indices(
+            ck, "a_search", PRE_A, ctype, terms,
+            f"fun c => verdict_eqb (search_invalid_gen {FX} (fst (fst c)) (snd (fst c))) (snd c)"),
+        lambda: common.coq_bad_indices(
+            ck, "a_spec", PRE_A, ctype, terms,
+            "fun c => negb (verdict_eqb (snd c) Accept) || negb (wf_block (snd (fst c))) || def_before_use_b (fst (fst c)) (snd (fst c))"))]
     groups = {}
     for i, ((meta, mu, tree), r) in enumerate(zip(cases, res)):
         ck.evaluations += 1
@@ -351,13 +360,25 @@ def part_a(ck):
             r = [["R", 999999]]
         exp = "[" + "; ".join(("AR" if a == "R" else "AW") + f" (OTemp {x}%positive)" for a, x in r) + "]"
         cterms.append(f"({c_block(t)}, {exp})")
-    cfun = "cleanup_fixed" if MODEL == "fixed" else "cleanup"
-    cbad = set(common.coq_bad_indices(ck, "a_cleanup", PRE_A, "block * list acc", cterms,
-                                      f"fun c => accs_eqb (temp_lin ({cfun} (fst c))) (snd c)"))
+    cfun = "cleanup_coded" if MODEL == "coded" else "cleanup"
     # spec on the real result: if the input has a write before every read on every path, then after the real
     # cleanup every temporary that is still read is still written (cleanup removed no needed write)
-    cspec = set(common.coq_bad_indices(ck, "a_cleanup_spec", PRE_A, "block * list acc", cterms,
-                                       "fun c => negb (def_before_use_b [] (fst c)) || covered (snd c)"))
+    # side / thm: how many inputs satisfy the side conditions of C08_cleanup_preserves (and def_before_use): for
+    # those the theorem applies, and its conclusion is re-checked on the model's output
+    HYP = "def_before_use_b [] (fst c) && bc_consistent (cleanup_unused (fst c))"
+    cbad, cspec, cside, cthm = [set(x) for x in par(
+        lambda: common.coq_bad_indices(ck, "a_cleanup", PRE_A, "block * list acc", cterms,
+                                       f"fun c => accs_eqb (temp_lin ({cfun} (fst c))) (snd c)"),
+        lambda: common.coq_bad_indices(ck, "a_cleanup_spec", PRE_A, "block * list acc", cterms,
+                                       "fun c => negb (def_before_use_b [] (fst c)) || covered (snd c)"),
+        lambda: common.coq_bad_indices(ck, "a_cleanup_side", PRE_A, "block * list acc", cterms, "fun c => " + HYP),
+        lambda: common.coq_bad_indices(ck, "a_cleanup_thm", PRE_A, "block * list acc", cterms,
+                                       f"fun c => negb ({HYP}) || def_before_use_b [] (cleanup (fst c))"))]
+    ck.cov["a_cleanup_inputs_meeting_theorem_hypotheses"] = len(ccases) - len(cside)
+    ck.obligation(not cthm)
+    if cthm:
+        ck.violation({"part": "cleanup", "theorem": "C08_cleanup_preserves"}, "an instance contradicts the proved theorem (harness/printing error?)",
+                     {"tree": ccases[sorted(cthm)[0]]}, no_input=True)
     cgroups = {}
     for i, (t, r) in enumerate(zip(ccases, cres)):
         ck.evaluations += 1
@@ -439,6 +460,15 @@ SRC = """import cohdl
 from cohdl import std, Port, Bit, BitVector, Signal, Temporary, Variable
 
 
+class H:
+    def __init__(self, val):
+        self.val = val
+
+
+NOVAL = H(None)
+NOVAL.other = 1
+
+
 class W(cohdl.Entity):
     clk = Port.input(Bit)
     a = Port.input(BitVector[2])
@@ -476,7 +506,7 @@ class Prog:
     def render(self):
         self.fns = []
         body = self.r_block(self.block, 12)
-        deco = "@std.sequential" if self.kind == "comb" else "@std.sequential(std.Clock(self.clk))"
+        deco = {"comb": "@std.sequential", "conc": "@std.concurrent"}.get(self.kind, "@std.sequential(std.Clock(self.clk))")
         fns = "".join(self.fns)
         return SRC.format(fns=fns, deco=deco, asy="async " if self.kind == "coro" else "", body=body)
 
@@ -505,7 +535,7 @@ class Prog:
             return [f"{sp}pass"]
         if k == "out":
             return [f"{sp}self.d <<= self.b"]
-        if k == "raw":
+        if k in ("raw", "rawx"):
             return [sp + l for l in s[1]]
         if k == "store":
             if s[3] == "signal":
@@ -595,6 +625,10 @@ class Prog:
                 self.bad.append(s[1])
             return df
         if k in ("pass", "out", "raw"):
+            return df
+        if k == "rawx":       # hand-written shape with its own judgement
+            if s[2]:
+                self.bad.append(s[2])
             return df
         if k == "store":
             if s[1] not in df:
@@ -808,9 +842,31 @@ def source_grid(ck):
     ]
     for nm, lines in bc:
         cnt[0] += 1
-        for kd in ("comb", "clk"):
+        for kd in ((("comb", "clk")[cnt[0] % 2],) if ck.tier == "quick" else ("comb", "clk")):
             progs.append(Prog(f"g{cnt[0]:04d}_{kd}", kd, [["raw", lines]],
                               {"construct": "bool-cast", "shape": nm, "def_at": "cast", "use_at": "after", "proc": kd}))
+    # ---- value branches (tests/invalid_builds/test_invalid_value_branch.py): a value selected by `a if c else b`
+    A, B = "(self.b | self.p)", "(self.b & self.p)"
+    vb = [
+        ("plain-both", [f"x = {A} if self.q else {B}", "self.c <<= x"], None),
+        ("plain-else-none", [f"x = {A} if self.q else None", "self.c <<= x"], "x (no value in the else arm)"),
+        ("plain-if-none", [f"x = None if self.q else {A}", "self.c <<= x"], "x (no value in the if arm)"),
+        ("holder-both", [f"v = H({A}) if self.q else H({B})", "self.c <<= v.val"], None),
+        ("holder-else-noval", [f"v = H({A}) if self.q else NOVAL", "self.c <<= v.val"], "v.val (None in the else arm)"),
+        ("holder-attr-one-side", [f"v = H({A}) if self.q else NOVAL", "self.c <<= v.other"], "v.other (exists in one arm only)"),
+        ("holder-getattr-one-side", [f"v = H({A}) if self.q else NOVAL", "self.c <<= getattr(v, \"other\")"], "v.other (exists in one arm only)"),
+        ("holder-nested-all", [f"v = H({A}) if self.q else (H(self.b) if self.p else H({B}))", "self.c <<= v.val"], None),
+        ("holder-nested-noval", [f"v = H({A}) if self.q else (H(self.b) if self.p else NOVAL)", "self.c <<= v.val"], "v.val (None in the innermost arm)"),
+        ("holder-hasattr-only", [f"v = H({A}) if self.q else NOVAL", "assert hasattr(v, \"val\")", "self.c <<= self.b"], None),
+        ("holder-getattr-unused", [f"v = H({A}) if self.q else NOVAL", "getattr(v, \"val\")", "self.c <<= self.b"], None),
+        ("holder-both-used-twice", [f"v = H({A}) if self.q else H({B})", "w = v.val", "self.c <<= w", "self.d <<= w ^ self.q"], None),
+    ]
+    for nm, lines, bad in vb:
+        cnt[0] += 1
+        for kd in (("conc", "comb") if ck.tier == "quick" else ("conc", "comb", "clk")):
+            progs.append(Prog(f"g{cnt[0]:04d}_{kd}", kd, [["rawx", lines, bad]],
+                              {"construct": "value-branch", "shape": nm, "def_at": "arms of a conditional expression",
+                               "use_at": "after", "proc": kd}))
     return progs
 
 
@@ -946,7 +1002,7 @@ def choice_str(c):
 
 def part_b(ck):
     quick = ck.tier == "quick"
-    progs = source_grid(ck) + random_progs(ck, 30 if quick else 600)
+    progs = source_grid(ck) + random_progs(ck, 20 if quick else 300)
     designs = []
     for p in progs:
         p.src = p.render()
@@ -974,10 +1030,13 @@ def part_b(ck):
         g = groups.setdefault(repr(sorted(key.items())), {"key": key, "what": what, "items": [], "no_input": no_input})
         g["items"].append((size, rep))
 
-    def queue_da(name, vhdl, prog, meta):
+    def queue_da(name, vhdl, prog, meta, flagged=False):
         try:
             ents, d = R.read_design(vhdl)
         except R.Unparsed as e:
+            if flagged:      # already reported as a source-level violation; the text is in that replay
+                ck.count("b_flagged_designs_outside_reader_subset")
+                return
             ck.obligation(False)
             group({"part": "emitted", "construct": meta.get("construct"), "reader": "unparsed"},
                   "emitted VHDL left the parsed subset: " + str(e)[:120], {"name": name, "meta": meta, "vhdl": vhdl}, len(vhdl), True)
@@ -1010,6 +1069,7 @@ def part_b(ck):
                     "shared-between-states" if "shared between states" in msg else
                     "read-before-written" if "read before it was written" in msg else
                     "name-not-in-scope" if "not found in scope" in msg else
+                    "member-missing-in-a-value-branch" if ("non existing member" in msg or "has no attribute" in msg) else
                     "other:" + r.get("error_type", "?") + ":" + msg[:40])
             ck.hist("b_real", "rejected:" + kind)
         ck.hist("b_spec", "must-reject" if spec_reject else ("dont-care" if p.dontcare else "no-undefined-use"))
@@ -1030,8 +1090,11 @@ def part_b(ck):
             if (not r["ok"]) and not spec_reject and not p.dontcare:
                 ck.count("b_rejected_although_every_use_is_defined")
                 ck.hist("b_conservative_rejections", m["construct"] + ":" + r.get("error", "")[:50])
+                ck.cov.setdefault("over_rejections", []).append(
+                    {"construct": m["construct"], "shape": m.get("shape", m.get("def_at")), "proc": p.kind,
+                     "error": (r.get("error", "") or r.get("error_type", ""))[:70]})
         if r["ok"]:
-            queue_da(p.name, r["vhdl"], p, m)
+            queue_da(p.name, r["vhdl"], p, m, flagged=spec_reject)
     for nm, ent, want in ups:
         r = byname[nm]
         ck.evaluations += 1
@@ -1080,6 +1143,12 @@ def part_b(ck):
 
 
 def run(ck: common.Check, replay=None):
+    sfx = os.environ.get("C08_SCRATCH")          # self-test convenience: separate scratch / replay directories
+    if sfx:
+        ck.gen = ck.gen + "_" + sfx
+        ck.replay_dir = ck.replay_dir + "_" + sfx
+        os.makedirs(ck.gen, exist_ok=True)
+        os.makedirs(ck.replay_dir, exist_ok=True)
     ck.check_props("C08_Properties.v")
     if replay is not None:
         return run_replay(ck, replay)
@@ -1101,7 +1170,7 @@ def run(ck: common.Check, replay=None):
                    "the generator's own definite-assignment judgement (Prog.judge) as rendering of 'used afterwards'",
                    "names of process variables: every variable not declared by the test program as Variable(name='uv_*') is a compiler temporary"]
     ck.assumptions += ["IR statements are abstracted to read/write access lists over temporary roots; InlineCode and sub-references "
-                       "(slices of temporaries) are not modelled", "C08_MODEL=%s selects the Gallina model compared with the real check" % MODEL,
+                       "(slices of temporaries) are not modelled", "model compared with the real check: %s tree" % MODEL,
                        "source grid: temporaries of type Bit/bool in one process of one entity; loops are for-break chains over literals"]
 
 
